@@ -447,3 +447,52 @@ func GoStackHas(gid uint64, subs ...string) bool {
 	}
 	return false
 }
+
+// GInfo is the state and the stack text of one goroutine, taken from ONE dump
+// (a state from one dump must never be combined with a stack from another).
+type GInfo struct {
+	State string
+	Stack string
+}
+
+// Dump returns state and stack of every goroutine from a single stack dump.
+func Dump() map[uint64]GInfo {
+	res := map[uint64]GInfo{}
+	for _, blk := range strings.Split(FullDump(), "\n\n") {
+		m := gHead.FindStringSubmatch(blk)
+		if m == nil {
+			continue
+		}
+		id, _ := strconv.ParseUint(m[1], 10, 64)
+		res[id] = GInfo{State: m[2], Stack: blk}
+	}
+	return res
+}
+
+// BlockedIn tells whether goroutine g is, in this dump, in one of the given
+// scheduler states with all the given substrings on its stack.
+func BlockedIn(d map[uint64]GInfo, g uint64, states []string, subs ...string) bool {
+	gi, ok := d[g]
+	if !ok {
+		return false
+	}
+	okState := false
+	for _, s := range states {
+		if gi.State == s {
+			okState = true
+		}
+	}
+	if !okState {
+		return false
+	}
+	for _, s := range subs {
+		if !strings.Contains(gi.Stack, s) {
+			return false
+		}
+	}
+	return true
+}
+
+// WaitGroupStates are the scheduler states of a goroutine blocked in
+// sync.WaitGroup.Wait (go1.23: "semacquire"; later versions name it).
+var WaitGroupStates = []string{"semacquire", "sync.WaitGroup.Wait"}
